@@ -9,4 +9,5 @@ INVARIANT BufOK
 INVARIANT PendingOK
 INVARIANT RetInsideCur
 INVARIANT StoreOK
+INVARIANT LapoutOK
 CHECK_DEADLOCK FALSE
